@@ -25,6 +25,25 @@ def ref_interp(tab, vals, req):
     return np.stack(out, axis=-1)
 
 
+def slope_tol(tab, vals, req, ulps=2e-15):
+    """|dy/dx| of the segment(s) a request touches, times the request's own round-off (vals[n_m, n_ap] -> [n_m, n_req])"""
+    vals = np.asarray(vals, float)
+    out = np.zeros((vals.shape[0], len(req)))
+    if tab is None or len(tab) < 2:
+        return out
+    tab = np.asarray(tab, float)
+    sl = np.abs(np.diff(vals, axis=1)) / np.diff(tab)[None, :]          # [n_m, n_ap-1]
+    for j, a in enumerate(req):
+        i = int(np.clip(np.searchsorted(tab, a) - 1, 0, len(tab) - 2))
+        s_ = sl[:, i]
+        if i + 1 < sl.shape[1]:
+            s_ = np.maximum(s_, sl[:, i + 1])
+        if i > 0:
+            s_ = np.maximum(s_, sl[:, i - 1])
+        out[:, j] = s_ * abs(float(a)) * ulps
+    return out
+
+
 def within_single_precision(tab, vals, req, got, delta=4e-7):
     """radii given in single precision: every conversion of the radius may round it by ~6e-8, which a steep table amplifies.
     got must lie within the range the interpolant takes over [req*(1-delta), req*(1+delta)] (clamped to the table; the range
@@ -109,7 +128,10 @@ def install(ctx):
             oke = within_single_precision(tab, er, req, ge)
             mismatch = (okf is False) or (oke is False) or (okf is None and not (O.close(gf, ref_f, 1e-6) and O.close(ge, ref_e, 1e-6)))
         else:
-            mismatch = gf.shape != ref_f.shape or not O.close(gf, ref_f, 1e-11) or not O.close(ge, ref_e, 1e-11)
+            # the radius the table is asked at is known to a few units in its last place only (it went through unit conversions on
+            # both sides): where the table is steep that alone moves the interpolant by |dy/dx| * ulps(x)
+            mismatch = gf.shape != ref_f.shape or np.any(np.abs(gf - ref_f) > 1e-11 * np.abs(ref_f) + slope_tol(tab, fl, req)) or \
+                np.any(np.abs(ge - ref_e) > 1e-11 * np.abs(ref_e) + slope_tol(tab, er, req))
         if mismatch:
             bad = 'above' if tab is not None and np.any(req > tab[-1]) else 'inside'
             ctx.violation('convolved:wrong-interpolant:' + bad, 'interpolated convolved fluxes are not exact-at-knots / linear-between / clamped-above',
@@ -228,7 +250,7 @@ def run(ctx):
     ctx.assume('the smallest knot is requested only in the table\'s own unit (a unit round trip can land 1 ulp below it and be legitimately refused)',
                'interpolate_variable clamps to 0.999*a_max by design: anything between the interpolants at 0.999*a_max and a_max is accepted',
                'rtol 1e-11 (1e-9 for the composite SED)')
-    ctx.require_regimes('on-knot:in-another-unit')
+    ctx.require_regimes('on-knot:in-another-unit', 'convolved:flux-rises-fourteen-decades-with-aperture')
     ctx.require_events('convolved:result-at-tabulated-radii-modified', 'sed:same-request-array-reused-across-tables', 'convolved:same-request-quantity-reused-across-tables', 'ConvolvedFluxes.interpolate:post', 'SED.interpolate:post', 'SED.interpolate_variable:post', 'variable:node-checked',
                        'refused:convolved', 'refused:sed', 'refused:variable', 'convolved:same-table-again', 'convolved:table-changed-between-calls', 'convolved:table-without-errors', 'sed:apertures-replaced-between-calls', 'sed:fluxes-replaced-between-calls', 'convolved:apertures-replaced-between-calls', 'convolved:request-dtypes', 'convolved:flux-scaled-with-augmented-assignment')
     ctx.require_regimes('sed:request-as-integers', 'sed:request-as-float32', 'single-aperture', 'convolved:no-apertures', 'convolved:flux-unit-not-mJy', 'convolved:error-unit-differs', 'sed:desc-wav', 'sed:flux-unit-not-mJy', 'unit:pc', 'unit:cm', 'sed-apertures:cm', 'above-table', 'on-knot')
@@ -251,6 +273,10 @@ def run(ctx):
         else:
             cf.apertures = tq
         fl = gen.conv_grid(rng, n_m, 1, n_ap=n_ap)[:, :, 0]
+        if it % 7 == 3 and n_ap >= 2:
+            # a point source inside a bright extended envelope: the flux rises by fourteen decades from the smallest to the largest aperture
+            fl = fl * 10.0 ** np.linspace(-12.0, 2.0, n_ap)[None, :]
+            ctx.regime('convolved:flux-rises-fourteen-decades-with-aperture')
         # the table may hold its fluxes in mJy, Jy or uJy, and its errors in another of these
         cfu = [u.mJy, u.Jy, u.uJy][it % 3]
         cfe = [u.mJy, u.Jy, u.uJy][(it // 3) % 3]
